@@ -247,7 +247,7 @@ def show(t, depth=0):
     if k == 'bin':
         return '(%s %s %s)' % (show(t[2], d), t[1], show(t[3], d))
     if k == 'lv':
-        return 'loopvar%s' % (t[2],)
+        return 'each(%s)%s' % (show(t[2], d), ('.%d' % t[3]) if len(t) > 3 else '')
     if k == 'phi':
         return 'phi(%s)' % t[2]
     if k == 'global':
